@@ -828,7 +828,9 @@ pub async fn process_multiple_changes(
                     let end = *versions.end();
                     // update db_version in db if it's greater than the max
                     // since we aren't passing any changes to crsql
-                    if Some(end) > max {
+                    // (`max` may stem from a version we only hold buffered chunks of, which
+                    // cr-sqlite has not seen yet: equal counts too)
+                    if Some(end) >= max {
                         process_empty_version(&tx, change.actor_id, &end).map_err(|e| {
                             ChangeError::Rusqlite {
                                 source: e,
